@@ -307,6 +307,7 @@ class Sub(object):
             from gpmc import envs as _envs
             gen = (lambda g: (lambda tier, seed: _envs.expand(g(tier, seed), envs)))(gen)
         self.envs = envs
+        self.proc_ignore = ()       # keys of snapshot.snap_process() the harness itself changes in this sub-check (e.g. 'cwd')
         self.fresh = fresh          # every work unit in a newly forked copy of the parent (which has only imported the library)
         self.gen = gen
         self.evalf = evalf
@@ -373,14 +374,25 @@ def eval_one(sub, case, rec):
     if use_alarm:
         old = signal.signal(signal.SIGALRM, on_alarm)
         signal.setitimer(signal.ITIMER_REAL, limit)
+    from gpmc import snapshot as _snp
+
+    def run_case():
+        # process-wide interpreter state (warning filters, decimal context, numpy error state / print options, locale, cwd, TZ,
+        # sys.path, ...) belongs to the application: no library call may leave it changed
+        p0 = _snp.snap_process()
+        sub.evalf(case, rec)
+        pd = [k for k in _snp.diff_process(p0, _snp.snap_process()) if k not in getattr(sub, 'proc_ignore', ())]
+        if pd:
+            rec.fail('process-wide interpreter state was changed while the case ran (%s)' % ', '.join(pd), site='purity:process-state:' + pd[0],
+                     observed=pd, coords={'changed': pd})
     try:
         if isinstance(case, dict) and case.get('_env'):
             from gpmc import envs as _envs
             with _envs.applied(case['_env']):
-                sub.evalf(case, rec)
+                run_case()
             rec.outcome('env:' + case['_env'])
         else:
-            sub.evalf(case, rec)
+            run_case()
         from gpmc import cfg as _cfg
         if _cfg.FORM_MISMATCH:
             kind, want, got = _cfg.FORM_MISMATCH[0]
